@@ -21,7 +21,7 @@ ASSUMPTIONS = ['scope alphabet {s,t,(u)}; at most 2 varied parameters (+1 **kwar
                'probe bodies only record their arguments', 'hard reset by vf/harness.py (validated in C20)']
 WITNESSES = ['longer_prefix_overrides', 'nonprefix_ignored', 'positional_beats_binding', 'keyword_beats_binding',
              'default_left_alone', 'binding_applied', 'missing_required_typeerror', 'varkw_binding',
-             'scoped_selector_replaces_scope', 'class_shape', 'method_shape', 'history_failed_required_call']
+             'scoped_selector_replaces_scope', 'class_shape', 'method_shape', 'history_failed_required_call', 'rebound_after_finalize']
 
 REC = []
 SHAPES = {}
@@ -473,19 +473,52 @@ def run_shard(shard, tier, only=None):
                 res.sample({'case': desc})
                 sample_done = True
               exec_path(sh, sel, bindings, act, path, form, split, res, desc)
+        locked_phase(sh, sel, bindings, keys, ACTIVE, spl, res)
   harness.hard_reset()
   return res
+
+
+def locked_phase(sh, sel, bindings, keys, ACTIVE, spl, res):
+  """The same calls on a finalized configuration, then again after re-binding inside unlock_config: values bound
+  later (also under a longer prefix, also for a parameter that had no binding) must reach the very next call."""
+  path0 = 'direct' if sh.call is not None else ('method' if sh.kind == 'method' else 'getconf_obj_in')
+  try:
+    gin.finalize()
+  except Exception as e:  # pylint: disable=broad-except
+    res.extra['harness_error'] = 'finalize failed in locked_phase: %r' % (e,)
+    return
+  for stage in ('locked', 'rebound'):
+    if stage == 'rebound':
+      with gin.unlock_config():
+        for (sc, p) in list(bindings):
+          bindings[(sc, p)] = val(p, sc) + '#2'
+          gin.bind_parameter((sc, sel, p), bindings[(sc, p)])
+        for extra in (('s/t', sh.p1), ('', sh.p2)):
+          if extra not in bindings:
+            bindings[extra] = val(extra[1], extra[0]) + '#new'
+            gin.bind_parameter((extra[0], sel, extra[1]), bindings[extra])
+    for act in ACTIVE:
+      for split in spl:
+        desc = [sh.cname, sorted(map(list, keys)), act, path0, 'nested', sorted(split[0].items()), split[1], split[2],
+                split[3], stage]
+        exec_path(sh, sel, bindings, act, path0, 'nested', split, res, desc)
+  res.w('rebound_after_finalize')
 
 
 def replay(desc):
   res = core.Result()
   if desc[0] in ('query', 'gb', 'gbs'):
     return run_shard([desc[1], None], 'thorough')
-  cname, keys, act, path, form, modes, npos, xpos, xkw = desc
+  cname, keys, act, path, form, modes, npos, xpos, xkw = desc[:9]
   sh = SHAPES[cname]
   sel = selector_of(sh)
   bindings = install(sh, sel, [tuple(k) for k in keys])
   split = (dict((k, v) for k, v in modes), npos, xpos, xkw)
+  if len(desc) > 9:
+    P1, P2, PZ, ACTIVE = params('quick')
+    locked_phase(sh, sel, bindings, [tuple(k) for k in keys], ACTIVE, splits(sh), res)
+    harness.hard_reset()
+    return res
   exec_path(sh, sel, bindings, act, path, form, split, res, desc)
   harness.hard_reset()
   return res
